@@ -317,3 +317,66 @@ def docker_metadata_position_only_b2(i0: int, i1: int, i2: int) -> bool:
     post: _
     """
     return _docker_metadata_position_only(2, i0, i1, i2)
+
+
+def _one_query(ds, coll, md_image):
+    "run one query on an existing dataset object -> (result, raised)"
+    coro = ds.execute_result_async(_query(coll, md_image), "title")
+    try:
+        coro.send(None)
+        return None, RuntimeError("coroutine did not finish")
+    except StopIteration as stop:
+        return stop.value, None
+    except Exception as e:
+        return None, e
+
+
+def _two_queries(backend, image, tag, first_md, second_md, first_fails, third):
+    """Several queries on ONE dataset object: each runs the image ITS OWN docker metadata names, otherwise the dataset's
+    image:tag - whatever the queries before it carried, and whether or not the one before it failed."""
+    cls, coll, cache = _dataset_class(backend)
+    files = _setup(1, -1, -1)
+    _DetTempDir.created = []
+    tempfile.tempdir = str(BASE)
+    try:
+        ds = cls(files, docker_image=image, docker_tag=tag, output_directory=BASE / "out")
+    except Exception:
+        return False
+    plan = [("first/md:1" if first_md else None, first_fails), ("second/md:2" if second_md else None, False)]
+    if third:
+        plan.append((None, False))
+    for md_image, fails in plan:
+        SCENARIO.reset()
+        SCENARIO.chunks = []
+        SCENARIO.fail_after = 0 if fails else None
+        SCENARIO.write_result = True
+        SCENARIO.write_early = False
+        result, raised = _one_query(ds, coll, md_image)
+        if len(SCENARIO.calls) != 1:
+            return False
+        if SCENARIO.calls[0]["image"] != (md_image if md_image is not None else image + ":" + tag):
+            return False
+        if fails:
+            if raised is None or result is not None:
+                return False
+        elif raised is not None or result is None or len(result) != 1:
+            return False
+        if [d for d in _DetTempDir.created if os.path.exists(d)]:
+            return False
+    return True
+
+
+def two_queries_one_dataset(backend: int, first_md: bool, second_md: bool, first_fails: bool, third: bool) -> bool:
+    """
+    pre: 0 <= backend <= 2
+    post: _
+    """
+    return _two_queries(backend, "img", "t1", first_md, second_md, first_fails, third)
+
+
+def two_queries_one_dataset_image(image: str, tag: str, first_md: bool) -> bool:
+    """
+    pre: 1 <= len(image) <= 2 and 1 <= len(tag) <= 2
+    post: _
+    """
+    return _two_queries(0, image, tag, first_md, False, False, False)
